@@ -334,7 +334,8 @@ def empty_rule(c, facts, b, g, infn, lead):
     inp = b._input_name(infn)
     s = inner_summary(b, infn)
     tests = [e for e in s.events if e["e"] == "isempty"]
-    ifs = find_all(infn.body, lambda n: n.get("k") == "if" and n["cond"]["k"] == "mcall" and n["cond"]["m"] == "is_empty" and rx.is_var(n["cond"]["recv"], inp))
+    # the test may sit in the inner function or in a helper it was split into: the summary records the node
+    ifs = [e["node"] for e in tests if e.get("node") is not None]
     if not tests or not ifs:
         c.ob("C06.empty", infn.key, "empty input ≡ -true", None, "no `if input.is_empty()` found in %s" % infn.key)
         return
@@ -356,5 +357,11 @@ def empty_rule(c, facts, b, g, infn, lead):
         witness="'   ' (blank-only input)" if not dom else None,
     )
     then = rx.peel(ifnode["then"])
+    if then["k"] == "block" and len(then["stmts"]) == 1 and then["stmts"][0]["k"] == "expr":
+        then = rx.peel(then["stmts"][0]["e"])
+    if then["k"] == "return" and then["e"] is not None:
+        then = rx.peel(then["e"])  # `if input.is_empty() { return Ok(vec![..]); }`
+    if then["k"] == "call" and rx.path_str(then["f"]) == "Ok" and len(then["args"]) == 1:
+        then = rx.peel(then["args"][0])
     ok = then["k"] == "macro" and then["name"] == "vec" and len(then.get("args", [])) == 1 and src(then["args"][0]) in ("Token::Test(Test::True)",)
     c.ob("C06.empty", infn.key, "empty input becomes exactly [-true]", ok, "true-branch builds %s" % src(then))
